@@ -144,6 +144,10 @@ func (c *FnCtx) oblige(kind, label string, tags []string, guard, goal *Term, pos
 	if c.pass1 || c.inUnfold > 0 {
 		return
 	}
+	if kind == "frame" && c.spec != nil && len(c.spec.FrameTags) > 0 {
+		// frame obligations may serve a further property (C09: nothing shared is written)
+		tags = append(append([]string{}, tags...), c.spec.FrameTags...)
+	}
 	if c.spec != nil && c.depth == 0 {
 		if reason, ok := c.spec.AllowKinds[kind]; ok {
 			c.assumed["unchecked "+kind+" obligations in "+c.name+": "+reason] = true
